@@ -23,6 +23,7 @@ import (
 	"fmt"
 	"io"
 	"net"
+	"runtime"
 	"strings"
 	"sync"
 	"sync/atomic"
@@ -346,6 +347,113 @@ func frameLive(r *prng.R, s *out.Sink, tier string) {
 		}
 	}
 	frameDeadPeerQueue(r, s, ca, pool, srvCert)
+	frameFirstSendRace(r, s, tier, ca, pool, srvCert)
+}
+
+// frameFirstSendRace: several goroutines make the very first send to a destination that has never been used, at the same
+// moment (released from a spin barrier), trial after trial with a fresh sender each time. One writer and one connection per
+// destination: every accepted frame arrives once, unmodified, in its goroutine's order.
+func frameFirstSendRace(r *prng.R, s *out.Sink, tier string, ca tlsgen.CA, pool *x509.CertPool, srvCert *tlsgen.CertKeyPair) {
+	trials := 300
+	if tier == "thorough" {
+		trials = 3000
+	}
+	const senders, each = 8, 4
+	lg := &liveLogger{}
+	ident, err := ca.NewClientCertKeyPair()
+	if err != nil {
+		panic(err)
+	}
+	p2id := map[string]uint16{hex.EncodeToString(sha2(ident.Cert)): 7}
+	l, _ := net.Listen("tcp", "127.0.0.1:0")
+	addr := l.Addr().String()
+	l.Close()
+	lsn := tssnet.Listen(addr, srvCert.Cert, srvCert.Key)
+	in, stop := tssnet.ServiceConnections(lsn, p2id, lg)
+	defer stop()
+	var mu sync.Mutex
+	got := map[uint32][][2]uint32{} // trial -> (goroutine, k) in arrival order
+	bad := ""
+	go func() {
+		for m := range in {
+			mu.Lock()
+			if len(m.Data) != 12+64 || m.From != 7 {
+				bad = fmt.Sprintf("a frame of %d bytes attributed to %d arrived (sent: 76 bytes by node 7)", len(m.Data), m.From)
+			} else {
+				t := binary.LittleEndian.Uint32(m.Data[0:])
+				for i := 12; i < len(m.Data); i++ {
+					if m.Data[i] != byte(int(t)+i) {
+						bad = fmt.Sprintf("trial %d: payload modified in transit", t)
+						break
+					}
+				}
+				got[t] = append(got[t], [2]uint32{binary.LittleEndian.Uint32(m.Data[4:]), binary.LittleEndian.Uint32(m.Data[8:])})
+			}
+			mu.Unlock()
+		}
+	}()
+	for t := 0; t < trials; t++ {
+		send := tssnet.SocketRemoteParties{0: tssnet.NewSocketRemoteParty(tssnet.PartyConnectionConfig{AuthFunc: authFuncFor(ident), Id: 0, Endpoint: addr, TlsCAs: pool}, lg)}
+		var ready, goFlag int32
+		var wg sync.WaitGroup
+		for g := 0; g < senders; g++ {
+			g := g
+			wg.Add(1)
+			go func() {
+				defer wg.Done()
+				atomic.AddInt32(&ready, 1)
+				for atomic.LoadInt32(&goFlag) == 0 {
+				}
+				for k := 0; k < each; k++ {
+					payload := make([]byte, 12+64)
+					binary.LittleEndian.PutUint32(payload[0:], uint32(t))
+					binary.LittleEndian.PutUint32(payload[4:], uint32(g))
+					binary.LittleEndian.PutUint32(payload[8:], uint32(k))
+					for i := 12; i < len(payload); i++ {
+						payload[i] = byte(t + i)
+					}
+					send.Send(0, nil, payload, 0)
+				}
+			}()
+		}
+		for atomic.LoadInt32(&ready) < senders {
+			runtime.Gosched()
+		}
+		atomic.StoreInt32(&goFlag, 1)
+		wg.Wait()
+		// everything was accepted for sending: wait for it
+		deadline := time.Now().Add(5 * time.Second)
+		for time.Now().Before(deadline) {
+			mu.Lock()
+			n := len(got[uint32(t)])
+			mu.Unlock()
+			if n >= senders*each {
+				break
+			}
+			time.Sleep(200 * time.Microsecond)
+		}
+		mu.Lock()
+		arrived := got[uint32(t)]
+		problem := bad
+		mu.Unlock()
+		s.N++
+		s.Count("first-send-race/trial")
+		next := map[uint32]uint32{}
+		if problem == "" && len(arrived) != senders*each {
+			problem = fmt.Sprintf("trial %d: %d of the %d frames accepted for sending arrived (eight goroutines made the first send to a fresh destination at the same moment)", t, len(arrived), senders*each)
+		}
+		for _, a := range arrived {
+			if problem == "" && a[1] != next[a[0]] {
+				problem = fmt.Sprintf("trial %d: frame %d of goroutine %d arrived where its frame %d was due (lost, duplicated or reordered on one connection)", t, a[1], a[0], next[a[0]])
+			}
+			next[a[0]] = a[1] + 1
+		}
+		if problem != "" {
+			s.Violate("C17", "concurrent first send: "+problem, fmt.Sprintf("trial %d of %d, %d goroutines x %d frames of 76 bytes", t, trials, senders, each))
+			return
+		}
+	}
+	s.Distinct[fmt.Sprintf("first-send-race %d trials", trials)] = struct{}{}
 }
 
 func authFuncFor(id *tlsgen.CertKeyPair) func([]byte) tssnet.Handshake {
